@@ -612,8 +612,29 @@ std::string Interp::exec(const std::string& op, int want, const std::vector<std:
         DOMNode* n = node(a[0]);
         bool isDoc = n->getNodeType() == DOMNode::DOCUMENT_NODE;
         int h = hnum(a[0]);
+        // handles that die with the node (doc/program-dom.xml: a released node takes its children along, a released document
+        // everything it owns).  Collected BEFORE the call, through public getters, dropped only when the call succeeds.
+        std::vector<int> dying;
+        if (isDoc) {
+            for (size_t k = 0; k < H.size(); k++) if (H[k] && (H[k] == n || H[k]->getOwnerDocument() == n)) dying.push_back((int)k);
+        } else if (!n->getParentNode() && !(n->getNodeType() == DOMNode::ATTRIBUTE_NODE && static_cast<DOMAttr*>(n)->getOwnerElement())) {
+            std::vector<const DOMNode*> st; st.push_back(n); unsigned long guard = 0;
+            while (!st.empty() && ++guard < 1000000UL) {
+                const DOMNode* x = st.back(); st.pop_back();
+                std::map<const DOMNode*, int>::iterator pi = P.find(x);
+                if (pi != P.end()) dying.push_back(pi->second);
+                DOMNamedNodeMap* m = x->getNodeType() == DOMNode::ELEMENT_NODE ? x->getAttributes() : 0;
+                if (m) for (XMLSize_t i = 0; i < m->getLength() && i < 100000; i++) if (m->item(i)) st.push_back(m->item(i));
+                unsigned long cnt = 0;
+                for (const DOMNode* c = x->getFirstChild(); c && ++cnt < 1000000UL; c = c->getNextSibling()) st.push_back(c);
+            }
+        }
         n->release();
-        if (isDoc) { noteDocReleased(n); docReleased.insert(h); }
+        for (size_t i = 0; i < dying.size(); i++) kill(dying[i]);
+        if (isDoc) {
+            noteDocReleased(n); docReleased.insert(h);
+            for (size_t i = 0; i < V.size(); i++) if (V[i].kind && V[i].doc == h) V[i].kind = 0;
+        }
         return "-";
     }
     bool handled = false;
